@@ -153,9 +153,8 @@ pub fn f_bounded_reduce_chain<'a>(a: S<'a, i64>) -> S<'a, i64> {
         .chain(a)
 }
 
-/// NOT generated by hv_det_emb/build.rs: constructing this (well-typed) flow panics in
-/// `Stream::new` with debug assertions on, because `Stream::filter_not_in` labels its output node
-/// `Bounded` even when `self` is `Unbounded` (side finding, belongs to C41).
+/// (Before the fix "Stream::filter_not_in records its own boundedness" constructing this flow
+/// panicked in `Stream::new` under debug assertions.)
 pub fn f_filter_not_in<'a>(a: S<'a, i64>) -> S<'a, i64> {
     let p = a.location().clone();
     a.filter_not_in(p.source_iter(q!(vec![1i64, 3])))
@@ -417,6 +416,107 @@ pub fn f_ks_map<'a>(a: S<'a, Pair>) -> S<'a, Vec<(i64, usize)>> {
 
 pub fn f_ks_first_map_entries<'a>(a: S<'a, Pair>) -> S<'a, Pair> {
     obs_bag(a.into_keyed().first().map(q!(|v| v + 5)).entries())
+}
+
+// ---------------------------------------------------------------------------------------------
+// C28 / C29: top-level joins / cross products with Bounded operands. The `e_bb_*` flows join two
+// `source_iter` collections and additionally echo an unrelated unbounded input to a second output,
+// so that the process keeps running ticks after the (one-shot) join result has been produced.
+
+pub type SB<'a, T> = Stream<T, P<'a>, Bounded, TotalOrder, ExactlyOnce>;
+
+pub fn obs_bag_b<'a, T, B: Boundedness, O: Ordering, R: Retries>(
+    s: Stream<T, P<'a>, B, O, R>,
+) -> Stream<T, P<'a>, B, TotalOrder, ExactlyOnce> {
+    s.assume_ordering(nondet!(/** observer */))
+        .assume_retries(nondet!(/** observer */))
+}
+
+pub fn e_bb_nested<'a>(a: S<'a, i64>) -> (SB<'a, (i64, i64)>, S<'a, i64>) {
+    let p = a.location().clone();
+    (
+        p.source_iter(q!(vec![1i64, 2]))
+            .cross_product_nested_loop(p.source_iter(q!(vec![10i64, 20, 30]))),
+        a,
+    )
+}
+
+pub fn e_bb_cross<'a>(a: S<'a, i64>) -> (SB<'a, (i64, i64)>, S<'a, i64>) {
+    let p = a.location().clone();
+    (
+        p.source_iter(q!(vec![1i64, 2]))
+            .cross_product(p.source_iter(q!(vec![10i64, 20, 30]))),
+        a,
+    )
+}
+
+pub fn e_bb_join<'a>(a: S<'a, i64>) -> (SB<'a, (i64, (i64, i64))>, S<'a, i64>) {
+    let p = a.location().clone();
+    (
+        p.source_iter(q!(vec![(0i64, 1i64), (1, 2), (1, 3)]))
+            .join(p.source_iter(q!(vec![(0i64, 70i64), (1, 71), (1, 72)]))),
+        a,
+    )
+}
+
+pub fn e_bb_repeat<'a>(a: S<'a, i64>) -> (SB<'a, (i64, i64)>, S<'a, i64>) {
+    let p = a.location().clone();
+    let keys = p
+        .source_iter(q!(vec![(1i64, ()), (2, ())]))
+        .into_keyed()
+        .first();
+    (
+        p.source_iter(q!(vec![7i64, 8]))
+            .repeat_with_keys(keys)
+            .entries_partially_ordered(nondet!(/** observer */)),
+        a,
+    )
+}
+
+pub fn e_bb_ks_join<'a>(a: S<'a, i64>) -> (SB<'a, (i64, (i64, i64))>, S<'a, i64>) {
+    let p = a.location().clone();
+    let ks = p
+        .source_iter(q!(vec![(1i64, 10i64), (2, 20)]))
+        .into_keyed()
+        .first();
+    (
+        ks.join_keyed_stream(
+            p.source_iter(q!(vec![(1i64, 100i64), (2, 200), (1, 101)]))
+                .into_keyed(),
+        )
+        .entries_partially_ordered(nondet!(/** observer */)),
+        a,
+    )
+}
+
+/// bounded keyed singleton x unbounded keyed stream
+pub fn e_ks_join_unb<'a>(a: S<'a, Pair>) -> S<'a, (i64, (i64, i64))> {
+    let p = a.location().clone();
+    let ks = p
+        .source_iter(q!(vec![(0i64, 10i64), (1, 20)]))
+        .into_keyed()
+        .first();
+    obs_keyed_ordered(ks.join_keyed_stream(a.into_keyed()))
+}
+
+/// bounded left x unbounded right (symmetric join, unordered)
+pub fn e_bl_ur_join<'a>(a: S<'a, Pair>) -> SB<'a, (i64, (i64, i64))> {
+    let p = a.location().clone();
+    obs_bag_b(
+        p.source_iter(q!(vec![(0i64, 70i64), (1, 71), (1, 72)]))
+            .join(a),
+    )
+}
+
+pub fn e_bl_ur_cross<'a>(a: S<'a, i64>) -> SB<'a, (i64, i64)> {
+    let p = a.location().clone();
+    obs_bag_b(p.source_iter(q!(vec![10i64, 20])).cross_product(a))
+}
+
+/// unbounded left x bounded right: the probe side's order is preserved
+pub fn e_ul_br_cross<'a>(a: S<'a, i64>) -> S<'a, (i64, i64)> {
+    let p = a.location().clone();
+    a.cross_product(p.source_iter(q!(vec![10i64, 20])))
 }
 
 // ---------------------------------------------------------------------------------------------
